@@ -590,6 +590,27 @@ pub fn run(a: &Args, rep: &mut Reporter) {
                 cover.hit(&format!("valueset:{}", ["all-min", "all-max", "alternating", "walking-one", "random"][vset as usize]));
             }
         }
+        if (mode == "c12w" && idx % 401 == 7) || (mode == "c01" && idx % 1201 == 13) {
+            // points of very few bits: far more than 2^16 values of one byte stream end up in a single packet
+            let w = 1 + (idx / 401 % 7) as usize;
+            let n = *r.pick(&[65535usize, 65536, 65537, 70001, 131072, 131073, 200000]);
+            let mut proto = vec![
+                Record { name: RecordName::CartesianX, data_type: RecordDataType::Integer { min: 4, max: 4 } },
+                Record { name: RecordName::CartesianY, data_type: RecordDataType::Integer { min: -1, max: -1 } },
+                Record { name: RecordName::CartesianZ, data_type: RecordDataType::ScaledInteger { min: 0, max: 0, scale: 0.5, offset: 1.0 } },
+                Record { name: RecordName::RowIndex, data_type: RecordDataType::Integer { min: -3, max: -3 + ((1i64 << w) - 1) } },
+            ];
+            if w <= 5 && r.bool() {
+                proto.push(Record { name: RecordName::Intensity, data_type: RecordDataType::ScaledInteger { min: 10, max: 13, scale: 0.25, offset: 0.0 } });
+            }
+            let points = (0..n).map(|_| gen_point(&mut r, &proto, false)).collect();
+            let mut pc = gen_pc(&mut r, &Knobs::base(), &[], &mut cover);
+            pc.prototype = proto;
+            pc.points = points;
+            pc.meta = PcMeta::default();
+            scene.items = vec![Item::Pc(pc)];
+            cover.hit(&format!("tiny-points:w{}:n{}", w, n));
+        }
         if mode == "c14" {
             for it in scene.items.iter_mut() {
                 if let Item::Pc(pc) = it {
